@@ -187,6 +187,26 @@ pub fn exhaustive(ctx: &Ctx, rep: &mut Report) {
             rep.count("valid_operations_after_a_division_by_zero", 1);
         }
     }
+    // call SEQUENCES over a small pool of operands (b, c, b, ...): every single result checked
+    {
+        let mut rng3 = crate::util::rng_for(ctx.seed, "c12-sequences");
+        for round in 0..ctx.sz(2000, 100_000) {
+            let pool: Vec<i16> = (0..rng3.gen_range(2..5)).map(|_| rng3.gen_range(1..Q as i16)).collect();
+            for _ in 0..12 {
+                let (x, y) = (rng3.gen_range(0..Q as i16), pool[rng3.gen_range(0..pool.len())]);
+                rep.evaluations += 1;
+                match monitored(move || (vh::felt_div(x, y), vh::felt_inv(y), vh::felt_mul(x, y))) {
+                    Err(p) => rep.violation(&format!("panic:felt-sequence@{}", short_loc(&p.location)), p.message.clone(), json!({"op": "sequence", "round": round})),
+                    Ok((dv, iv, ml)) => {
+                        if (dv as i64 * y as i64) % Q != x as i64 % Q || (iv as i64 * y as i64) % Q != 1 || ml as i64 != (x as i64 * y as i64) % Q {
+                            rep.violation("felt:wrong-inside-a-call-sequence", format!("within a sequence over the divisors {:?}: div({}, {}) = {}, inv({}) = {}, mul = {}", pool, x, y, dv, y, iv, ml), json!({"op": "sequence", "round": round, "pool": pool}));
+                        }
+                    }
+                }
+            }
+            rep.count("operand_pool_sequences", 1);
+        }
+    }
     // LONG batches: lengths around 2^8, 2^15, 2^16 and 2^17 (an index or a count kept in a
     // narrow integer wraps there), with and without zeros
     let longs: Vec<usize> = vec![255, 256, 257, 1024, 4096, 32767, 32768, 32769, 65535, 65536, 65537, 70000, 131071, 131072, 131073, 200_000];
